@@ -297,12 +297,20 @@ func H_C15_api(n, _ int) {
 		ok := len(blocks) == 1 && blocks[0].Kind() == ATXHeadingKind && blocks[0].HeadingLevel() == lvl
 		check(ok, "C15.api.atx")
 		if ok {
-			// the text covered by the heading's inline children is exactly the content
-			total := 0
-			for i := 0; i < blocks[0].ChildCount(); i++ {
-				total += blocks[0].Child(i).Span().Len()
+			// the content range the block parser records (the heading's single unparsed
+			// child, before inline parsing - inline nodes do not tile the content: the
+			// backslash of an escape belongs to no node) is exactly the reference's content
+			bp := NewBlockParser(&oneShotReader{data: cloneBytes(line)})
+			rb, err := bp.NextBlock()
+			okc := err == nil && rb != nil && rb.Kind() == ATXHeadingKind
+			if okc {
+				lo, hi := cs, cs // an empty content may be recorded as no child at all
+				if rb.ChildCount() > 0 {
+					lo, hi = rb.Child(0).Span().Start, rb.Child(rb.ChildCount()-1).Span().End
+				}
+				okc = hi-lo == ce-cs && (ce == cs || lo == cs)
 			}
-			check(total == ce-cs, "C15.api.atx-content")
+			check(okc, "C15.api.atx-content")
 		}
 	case fn > 0:
 		_ = fc
